@@ -212,7 +212,8 @@ func TestVerifN2HRedirectBin(t *testing.T) {
 			cases = append(cases, vfRdCase{c.post, c.mode, c.naddr, vfRdGenWorld(r, k%3), body})
 		}
 		src := vfNewStubNsqd()
-		args := []string{"--nsqd-tcp-address", src.addr, "--topic", "t", "--channel", "c"}
+		// a short request timeout only bounds the damage of a tree whose client follows redirect loops for ever
+		args := []string{"--nsqd-tcp-address", src.addr, "--topic", "t", "--channel", "c", "--http-client-request-timeout", "4s"}
 		if c.mode == "rr" {
 			args = append(args, "--mode", "round-robin")
 		} else {
